@@ -12,6 +12,7 @@ import (
 	"sort"
 	"strconv"
 	"strings"
+	"sync"
 	"sync/atomic"
 	"unsafe"
 
@@ -59,6 +60,11 @@ func unexported(ps *state.NodePoolState, field string) reflect.Value {
 // Snapshot projects the struct: entry existence, the three sets, the reserved counter, the mapped claims.
 // nameIdx maps a claim name to the integer the specification uses.
 func Snapshot(ps *state.NodePoolState, pool string, nameIdx func(string) int) trace.M {
+	a, d, p := ps.GetNodeCount(pool)
+	// the struct's own lock: controllers' goroutines call its methods while the driver observes
+	mu := unexported(ps, "mu").Addr().Interface().(*sync.RWMutex)
+	mu.RLock()
+	defer mu.RUnlock()
 	st := unexported(ps, "nodePoolNameToNodeClaimState").Interface().(map[string]state.NodeClaimState)
 	lim := unexported(ps, "nodePoolNameToNodePoolLimit").Interface().(map[string]*atomic.Int64)
 	mp := unexported(ps, "nodeClaimNameToNodePoolName").Interface().(map[string]string)
@@ -88,7 +94,6 @@ func Snapshot(ps *state.NodePoolState, pool string, nameIdx func(string) int) tr
 		}
 	}
 	m["map"] = ints(mapped)
-	a, d, p := ps.GetNodeCount(pool)
 	m["nAct"], m["nDel"], m["nPend"] = a, d, p
 	return m
 }
